@@ -22,6 +22,16 @@
 (* every byte was delivered; a closed channel yields ErrClosed or the      *)
 (* complete file.  Deviation "DropFlushErr" ignores the Flush result;      *)
 (* "PollAfterDataNil" adds a poll that returns nil after data was written. *)
+(*                                                                         *)
+(* The caller's writer may also fail for ONE Write call only (cfg.once:    *)
+(* the call that would carry byte K is rejected whole, later calls are     *)
+(* accepted) - the failure must still be reported.  Segment.WriteTo of a   *)
+(* file-backed segment streams its data section in pieces straight to the  *)
+(* writer (cfg.direct, no bufio in between): the first failing piece ends  *)
+(* the call.  Deviations: "SkipFlushWhenFull" (the final Flush is guarded  *)
+(* by Available() > 0 - seeded C12-h), "OverwriteErr" (the streaming loop  *)
+(* keeps going and a later successful piece overwrites the error - seeded  *)
+(* C12-i).                                                                 *)
 (***************************************************************************)
 EXTENDS Integers, Sequences, FiniteSets, TLC
 
@@ -32,49 +42,58 @@ CONSTANTS WriteLists,    \* set of sequences of write sizes
 -----------------------------------------------------------------------------
 (* Part 2: buffered writes under faults *)
 
-VARIABLES cfg,      \* [ws, B, K (fail offset or -1), C (close point or -1)]
+VARIABLES cfg,      \* [ws, B, K (fail offset or -1), C (close point or -1), once, direct]
+          hit,      \* the one-shot failure has happened
           wi,       \* next producer write
           buf,      \* bytes sitting in the bufio buffer
           err,      \* bufio's sticky error
           under,    \* bytes delivered to the caller's writer
           closed,   \* close channel closed
           result    \* "running", "nil", "err", "closed"
-fVars == <<cfg, wi, buf, err, under, closed, result>>
+fVars == <<cfg, hit, wi, buf, err, under, closed, result>>
 
 Total(ws) == LET RECURSIVE S(_) S(i) == IF i > Len(ws) THEN 0 ELSE ws[i] + S(i + 1) IN S(1)
 
-\* the caller's writer: accepts m bytes, or fails from offset K on; returns <<delivered, failed>>
-Under(u, m) ==
-    IF cfg.K >= 0 /\ u + m > cfg.K THEN <<IF cfg.K > u THEN cfg.K - u ELSE 0, TRUE>> ELSE <<m, FALSE>>
+\* the caller's writer: accepts m bytes, or fails from offset K on (for good, or - once - for the single call
+\* that would carry byte K, of which nothing is accepted); h = the one-shot failure already happened.
+\* Returns <<delivered, failed, h'>>
+UnderH(u, m, h) ==
+    IF cfg.K < 0 \/ u + m <= cfg.K \/ (cfg.once /\ h) THEN <<m, FALSE, h>>
+    ELSE IF cfg.once THEN <<0, TRUE, TRUE>>
+    ELSE <<IF cfg.K > u THEN cfg.K - u ELSE 0, TRUE, h>>
 
 \* bufio.Writer.Flush on state st = [buf, err, under]
 Flush(st) ==
     IF st.err THEN st
     ELSE IF st.buf = 0 THEN st
-    ELSE LET r == Under(st.under, st.buf) IN
-         [buf |-> st.buf - r[1], err |-> r[2], under |-> st.under + r[1]]
+    ELSE LET r == UnderH(st.under, st.buf, st.h) IN
+         [buf |-> st.buf - r[1], err |-> r[2], under |-> st.under + r[1], h |-> r[3]]
 
 \* bufio.Writer.Write(p) with len(p) = m
 RECURSIVE BWrite(_, _)
 BWrite(st, m) ==
     IF m > cfg.B - st.buf /\ ~st.err
     THEN IF st.buf = 0
-         THEN LET r == Under(st.under, m) IN          \* large write: straight to the caller's writer
-              BWrite([buf |-> 0, err |-> r[2], under |-> st.under + r[1]], m - r[1])
+         THEN LET r == UnderH(st.under, m, st.h) IN    \* large write: straight to the caller's writer
+              IF r[2] THEN [buf |-> 0, err |-> TRUE, under |-> st.under + r[1], h |-> r[3]]
+              ELSE BWrite([buf |-> 0, err |-> FALSE, under |-> st.under + r[1], h |-> r[3]], m - r[1])
          ELSE LET n == cfg.B - st.buf IN              \* fill the buffer, flush
               BWrite(Flush([st EXCEPT !.buf = cfg.B]), m - n)
     ELSE IF st.err THEN st
     ELSE [st EXCEPT !.buf = @ + m]
 
 FInit ==
-    /\ cfg \in {c \in [ws : WriteLists, B : BufSizes, K : -1..9, C : -1..9] :
+    /\ cfg \in {c \in [ws : WriteLists, B : BufSizes, K : -1..9, C : -1..9, once : BOOLEAN, direct : BOOLEAN] :
                     /\ c.K <= Total(c.ws) + 1 /\ c.C <= Total(c.ws) + 1
-                    /\ (c.K >= 0 => c.C = -1)}           \* either a failing writer or a close point
+                    /\ (c.K >= 0 => c.C = -1)            \* either a failing writer or a close point
+                    /\ (c.once => c.K >= 0)
+                    /\ (c.direct => c.C = -1 /\ c.B = 1)} \* Segment.WriteTo has no close channel; B is irrelevant
+    /\ hit = FALSE
     /\ wi = 1 /\ buf = 0 /\ err = FALSE /\ under = 0
     /\ closed = (cfg.C = 0)
     /\ result = "running"
 
-St == [buf |-> buf, err |-> err, under |-> under]
+St == [buf |-> buf, err |-> err, under |-> under, h |-> hit]
 Closes(u) == cfg.C >= 0 /\ u >= cfg.C
 
 \* cancellation is polled before the writes that start a phase (segments, terms, doc-value passes)
@@ -83,20 +102,25 @@ PollPoint(i) == i = 1 \/ i % 2 = 1
 Produce ==
     /\ result = "running" /\ wi <= Len(cfg.ws)
     /\ IF PollPoint(wi) /\ closed
-       THEN /\ result' = "closed" /\ UNCHANGED <<wi, buf, err, under, closed>>
-       ELSE LET st == BWrite(St, cfg.ws[wi]) IN
-            /\ buf' = st.buf /\ err' = st.err /\ under' = st.under
+       THEN /\ result' = "closed" /\ UNCHANGED <<wi, buf, err, under, closed, hit>>
+       ELSE LET st == IF cfg.direct
+                      THEN LET r == UnderH(under, cfg.ws[wi], hit) IN        \* a piece of the data section, unbuffered
+                           [buf |-> 0, under |-> under + r[1], h |-> r[3],
+                            err |-> IF "OverwriteErr" \in Dev THEN r[2] ELSE (err \/ r[2])]
+                      ELSE BWrite(St, cfg.ws[wi])
+            IN
+            /\ buf' = st.buf /\ err' = st.err /\ under' = st.under /\ hit' = st.h
             /\ closed' = (closed \/ Closes(st.under))
             /\ wi' = wi + 1
-            /\ result' = IF st.err THEN "err"                       \* every section writer returns the error
+            /\ result' = IF st.err /\ ~(cfg.direct /\ "OverwriteErr" \in Dev /\ wi < Len(cfg.ws)) THEN "err"   \* every section writer returns the error
                          ELSE IF "PollAfterDataNil" \in Dev /\ wi = Len(cfg.ws) /\ closed' THEN "nil"
                          ELSE "running"
     /\ UNCHANGED cfg
 
 Finish ==             \* err = bw.Flush(); return n, err
     /\ result = "running" /\ wi > Len(cfg.ws)
-    /\ LET st == Flush(St) IN
-       /\ buf' = st.buf /\ err' = st.err /\ under' = st.under
+    /\ LET st == IF "SkipFlushWhenFull" \in Dev /\ buf = cfg.B THEN St ELSE Flush(St) IN     \* "if bw.Available() > 0"
+       /\ buf' = st.buf /\ err' = st.err /\ under' = st.under /\ hit' = st.h
        /\ result' = IF st.err /\ "DropFlushErr" \notin Dev THEN "err" ELSE "nil"
        /\ closed' = (closed \/ Closes(st.under))
     /\ UNCHANGED <<cfg, wi>>
